@@ -83,7 +83,7 @@ def main():
         "setup_cmd": "python3 engine/build.py >/dev/null && python3 fuzz/fzbuild.py lfht_fuzz >/dev/null && python3 fuzz/fzbuild.py uat_fuzz >/dev/null && python3 native/nbuild.py >/dev/null && python3-vt -c 'import hypothesis'",
         "hooks": {
             "guard": "URCU_VERIF",
-            "enable": "checks compile /repo/src and /repo/include themselves (engine/build.py, fuzz/build.py) with -DURCU_VERIF plus -DURCU_VERIF_<CONSTANT>=<value> overrides; the autotools build in /repo is never used by the checks",
+            "enable": "checks compile /repo/src and /repo/include themselves (engine/build.py, fuzz/fzbuild.py, native/nbuild.py; hash-keyed on the working tree, so an edited tree is always rebuilt) with -DURCU_VERIF plus -DURCU_VERIF_<CONSTANT>=<value> overrides (E1: RCU_QS_ACTIVE_ATTEMPTS=2, URCU_WAIT_ATTEMPTS=2, MIN_PARTITION_PER_THREAD_ORDER=1, COUNT_COMMIT_ORDER=1, DEFER_QUEUE_SIZE=8, INIT_READER_COUNT=1; E2 lfht: MIN_PARTITION_PER_THREAD_ORDER=5, COUNT_COMMIT_ORDER=2; the C20 builds use no hook); the autotools build in /repo is never used by the checks",
             "baseline_off_cmd": "make -C /repo -k check",
             "source_commits": hooks_commits,
             "add_only": True,
